@@ -4341,7 +4341,10 @@ def fix_raise_missing_from(source: str) -> str:
     if any(name == "error" for _, name in _iter_identifier_mentions(root)):
         return  # the handler would rebind (and afterwards unbind) a name the program uses
 
-    yield from processing.find_replace(source, find, replace, root=root)
+    # a bare `except:` or `raise` has nothing to name or to chain
+    yield from processing.find_replace(
+        source, find, replace, root=root, exception=ast.expr, something=ast.expr
+    )
 
 
 @processing.fix
